@@ -187,7 +187,7 @@ theorem sstep_frameK (c : Cfg) (hw : WF c) (sh sh' : Sh) (pc pc' : SPc)
       obtain ⟨rfl, rfl⟩ := h; constructor <;> simp
   | write m =>
     simp only [sstep] at h
-    by_cases h1 : sh.sock ≠ .open
+    by_cases h1 : sh.sock.wfail = true
     · simp [h1] at h; obtain ⟨rfl, rfl⟩ := h; constructor <;> simp
     · by_cases h2 : sh.peerReads = true <;> simp [h1, h2] at h
       obtain ⟨rfl, rfl⟩ := h; constructor <;> simp
@@ -644,6 +644,11 @@ theorem invK_env (c : Cfg) (hw : WF c) (s s' : St) (e : Env) (hi : InvK s)
     · intro t k hk; exact ⟨k, by rw [kOf_sh]; exact hk⟩
   cases e with
   | peerClose =>
+    simp only [estep] at h
+    by_cases h1 : s.sh.sock = .open ∨ s.sh.sock = .peerShut <;> simp [h1] at h
+    subst h; apply same; constructor <;> simp [h1]
+    rcases h1 with h1 | h1 <;> simp [h1]
+  | peerShut =>
     simp only [estep] at h
     by_cases h1 : s.sh.sock = .open <;> simp [h1] at h
     subst h; apply same; constructor <;> simp [h1]
